@@ -292,7 +292,7 @@ def run(ctx):
 
     root = os.path.join(ctx.scratch, "c10run")
     os.makedirs(root)
-    moddir = os.path.join(vlib.BUILD, "harness_" + vlib.sha(vlib.REPO)) if vlib.PRIVATE else vlib.HARNESS
+    moddir = os.path.join(vlib.BUILD, "harness_" + getattr(vlib, "PTAG", vlib.sha(vlib.REPO))) if vlib.PRIVATE else vlib.HARNESS
 
     def compile_cases(cs):
         rc, out = ctx.run([impl, "-root", root, "-moddir", moddir], input="\n".join(json.dumps(c) for c in cs) + "\n", timeout=300)
